@@ -1091,7 +1091,11 @@ def gen_macro_scenario(rng, prof=None, tier='quick'):
         elif k == 'pop2':
             form = rng.choice([Txt('[x]', ['OLBr', t_lab('x'), 'ORBr']), Txt('[x+2]', ['OLBr', t_lab('x'), t_op('OAdd'), t_num(2), 'ORBr']),
                                Txt('[x - 1]', ['OLBr', t_lab('x'), t_op('OSub'), t_num(1), 'ORBr']),
-                               Txt('[ x + K9 ]', ['OLBr', t_lab('x'), t_op('OAdd'), t_lab('K9'), 'ORBr'])])
+                               Txt('[ x + K9 ]', ['OLBr', t_lab('x'), t_op('OAdd'), t_lab('K9'), 'ORBr']),
+                               # the offset after a minus sign is subtracted as an expression of its own: -(6 % 4), not (-6) % 4
+                               Txt('[x - 6 % 4]', ['OLBr', t_lab('x'), t_op('OSub'), t_num(6), t_op('OMod'), t_num(4), 'ORBr']),
+                               Txt('[x - 7 % 3 + 1]', ['OLBr', t_lab('x'), t_op('OSub'), t_num(7), t_op('OMod'), t_num(3), t_op('OAdd'), t_num(1), 'ORBr']),
+                               Txt('[x - 2 * 3]', ['OLBr', t_lab('x'), t_op('OSub'), t_num(2), t_op('OMul'), t_num(3), 'ORBr'])])
             stmts.append(['asm', rng.choice(['pop2', 'pop2', 'pop3']), [[form.text, form.toks]]])
         elif k == 'add4':
             i = rng.choice([0, 3, -4, 7] + ([8, 9, -5, -6, 8, 9, 10, -7] if risky_left else []))
